@@ -916,3 +916,42 @@ M('c16i-response-side-releases-both-decompressors', 'C16', 'break', TX,
   '                htp_tx_res_destroy_decompressors(tx->connp);', '                htp_connp_destroy_decompressors(tx->connp);', 'C16.i')
 M('c01p-extract-dir-owned-here-borrowed-there', 'C01', 'break', None, None, None, 'C01.p',
   edits=[('htp/htp_multipart.c', '    parser->extract_dir = cfg->tmpdir;\n', '    parser->extract_dir = (cfg->tmpdir != NULL) ? strdup(cfg->tmpdir) : NULL;\n')])
+
+# ---------------- second build round (wave f)
+M('c12j-validate-forgets-pending-sequence', 'C12', 'break', UT,
+  '    // Did the path end inside a multi-byte character?\n    if (state != HTP_UTF8_ACCEPT) {\n        tx->flags |= HTP_PATH_UTF8_INVALID;\n    }\n', '', 'C12.j')
+M('c12j-pending-sequence-tested-by-counter-keep', 'C12', 'keep', UT,
+  '    // Did the path end inside a multi-byte character?\n    if (state != HTP_UTF8_ACCEPT) {\n        tx->flags |= HTP_PATH_UTF8_INVALID;\n    }\n',
+  '    if (counter != 0) {\n        tx->flags |= HTP_PATH_UTF8_INVALID;\n    }\n')
+M('c12k-u-decoder-tests-high-byte-only', 'C12', 'break', UT,
+  '        if ((c1 == 0xff) && (c2 <= 0xef)) {\n            tx->flags |= HTP_PATH_HALF_FULL_RANGE;', '        if (c1 == 0xff) {\n            tx->flags |= HTP_PATH_HALF_FULL_RANGE;', 'C12.k')
+M('c12k-range-written-with-strict-bounds-keep', 'C12', 'keep', UT,
+  '                if ((codepoint >= 0xff00) && (codepoint <= 0xffef)) {\n                    tx->flags |= HTP_PATH_HALF_FULL_RANGE;\n                }\n\n                // Advance',
+  '                if ((codepoint > 0xfeff) && (codepoint < 0xfff0)) {\n                    tx->flags |= HTP_PATH_HALF_FULL_RANGE;\n                }\n\n                // Advance')
+M('c12l-bestfit-lookup-stops-at-larger-key', 'C12', 'break', UT,
+  '        if (x == 0) {\n            return cfg->decoder_cfgs[ctx].bestfit_replacement_byte;', '        if ((x == 0) || (x > codepoint)) {\n            return cfg->decoder_cfgs[ctx].bestfit_replacement_byte;', 'C12.l')
+M('c17g-search-skips-the-partial-match', 'C17', 'break', 'htp/bstr.c',
+  '        if (j == len2) {\n            return (int) i;\n        }\n    }\n\n    return -1;\n}\n\nint bstr_util_mem_index_of_mem_nocase(',
+  '        if (j == len2) {\n            return (int) i;\n        }\n        if (j > 1) i += j - 1;\n    }\n\n    return -1;\n}\n\nint bstr_util_mem_index_of_mem_nocase(', 'C17.g')
+M('c17h-digit-scan-capped-at-eight', 'C17', 'break', UT,
+  '    size_t i = 0;\n    while (i < len) {\n        unsigned char c = data[i];\n        if (!(isdigit(c) ||', '    size_t i = 0;\n    while ((i < len) && (i < 8)) {\n        unsigned char c = data[i];\n        if (!(isdigit(c) ||', 'C17.h')
+M('c03b-blank-chunk-line-consumed-not-cleared', 'C03', 'break', RS,
+  '            if (connp->out_chunked_length == -1004) {\n                htp_connp_res_clear_buffer(connp);\n                continue;',
+  '            if (connp->out_chunked_length == -1004) {\n                connp->out_current_consume_offset = connp->out_current_read_offset;\n                continue;', 'C03.b')
+M('c06i-line-counted-then-unread', 'C06', 'break', RS,
+  '                connp->out_tx->response_message_len -= len;\n                htp_status_t rc = htp_tx_res_process_body_data_ex(connp->out_tx, data, len);\n                htp_connp_res_clear_buffer(connp);\n                return rc;',
+  '                connp->out_current_read_offset -= len;\n                htp_connp_res_clear_buffer(connp);\n                return HTP_OK;', 'C06.i')
+M('c02k-parked-response-header-dropped-at-close', 'C02', 'break', RS,
+  '            // Parse previous header, if any.\n            if (connp->out_header != NULL) {\n                if (connp->cfg->process_response_header(connp, bstr_ptr(connp->out_header),\n                                                        bstr_len(connp->out_header)) != HTP_OK)\n                    return HTP_ERROR;\n                bstr_free(connp->out_header);\n                connp->out_header = NULL;\n            }\n\n            // Finalize sending raw trailer data.',
+  '            // Finalize sending raw trailer data.', 'C02.k')
+M('c02j-measuring-pass-walks-bytewise', 'C02', 'break', UT,
+  '    while (pos < len) {\n        if (data[pos] == \'\\\\\') {\n            if (pos + 1 < len) {\n                escaped_chars++;\n                pos += 2;\n                continue;\n            }\n        } else if (data[pos] == \'"\') {\n            break;\n        }\n\n        pos++;\n    }\n',
+  '    while (pos < len) {\n        if (data[pos] == \'\\\\\') {\n            if (pos + 1 < len) {\n                escaped_chars++;\n            }\n        } else if ((data[pos] == \'"\') && (data[pos - 1] != \'\\\\\')) {\n            break;\n        }\n\n        pos++;\n    }\n', 'C02.j')
+M('c09j-dangling-request-finalized-whatever-its-status', 'C09', 'break', RS,
+  '        if ((connp->in_state == htp_connp_REQ_FINALIZE)\n                && (connp->in_status != HTP_STREAM_ERROR) && (connp->in_status != HTP_STREAM_STOP)) {',
+  '        if (connp->in_state == htp_connp_REQ_FINALIZE) {', 'C09.j')
+M('c16j-connect-2xx-completes-without-looking', 'C16', 'break', RS,
+  'htp_status_t htp_connp_RES_FINALIZE(htp_connp_t *connp) {\n',
+  'htp_status_t htp_connp_RES_FINALIZE(htp_connp_t *connp) {\n    if ((connp->out_tx->request_method_number == HTP_M_CONNECT) && (connp->out_tx->response_status_number >= 200) && (connp->out_tx->response_status_number <= 299)) {\n        return htp_tx_state_response_complete_ex(connp->out_tx, 0);\n    }\n', 'C16.j')
+M('c16g-wait-gate-keyed-on-status-number', 'C16', 'break', RQ,
+  '    if (connp->in_tx->response_progress <= HTP_RESPONSE_LINE) {\n        return HTP_DATA_OTHER;', '    if (connp->in_tx->response_status_number == HTP_STATUS_UNKNOWN) {\n        return HTP_DATA_OTHER;', 'C16.g')
